@@ -12,8 +12,10 @@
         track specs in the output: `D<i>` direct, `S` silent, `M(<spec>|gain|delay)`, `X[<spec>+<spec>..]` mix, `G(<spec>|gain)`.
         `W` instead of `R ..`                      request: the validation predicates of the document
    out: `ok <item> ; <item> ...` (items in selection order) | `err <kind>` | `bad-op`;
-        for `W`: `wf <multitreeOK 0|1> <wrappedNonempty 0|1>`. -/
+        for `W`: `wf <multitreeOK 0|1> <wrappedNonempty 0|1> <vm 0|1> <vs 0|1>` where `vm` / `vs` = the C14 model's
+        `validateMultitree` / `validateStructure` accept the document graph `toDoc adm` (link C06 ↔ C14). -/
 import Earverif.Model.SelectItems
+import Earverif.Model.Validate
 import Earverif.Driver.Util
 open Earverif.Adm Earverif.Driver
 
@@ -144,7 +146,11 @@ def answer (line : String) : String :=
     let a := r.adm
     let okProg := match r.prog with | none => true | some p => p < a.programmes.length
     if !r.seenR || !a.refsInRange || !okProg || !r.sel.all (· < a.objects.length) then "bad-op"
-    else if r.wfOnly then s!"wf {sBool (multitreeOK a.fmt)} {sBool (wrappedNonempty a.fmt)}"
+    else if r.wfOnly then
+      let d := toDoc a
+      let vm := match Earverif.Validate.validateMultitree d with | .ok _ => true | .error _ => false
+      let vs := match Earverif.Validate.validateStructure d with | .ok _ => true | .error _ => false
+      s!"wf {sBool (multitreeOK a.fmt)} {sBool (wrappedNonempty a.fmt)} {sBool vm} {sBool vs}"
     else
       match selectRenderingItems a r.prog r.sel with
       | .error e => "err " ++ showErr e
